@@ -57,4 +57,75 @@ theorem concat_tie (m : M2) (d s : Hd) :
   simp only [c_cstl_dlist_concat, concat]
   split <;> split <;> simp_all
 
+/-- the loop body as one memory transformer (same term as in `revLoop`) -/
+def revBodyM (m : M2) (i j : Nat) : M2 :=
+  let nx1 := upd m.nx (m.pv i) j
+  let pv1 := upd m.pv (nx1 i) j
+  let pv2 := upd pv1 (nx1 j) i
+  let nx2 := upd nx1 (pv2 j) i
+  swapNodes { nx := nx2, pv := pv2 } i j
+
+/-- the main loop of `cstl_dlist_reverse` (the scratch variable `k` is dropped) -/
+theorem revLoop_tie (fuel : Nat) (m : M2) (l : Hd) (i j k : Nat) :
+    (c_cstl_dlist_reverse_loop1 fuel m.nx m.pv l i j k).map (fun r => (r.1, r.2.1, r.2.2.1, r.2.2.2.1, r.2.2.2.2.1))
+      = (revLoop fuel m i j).map (fun r => (r.1.nx, r.1.pv, l, r.2.1, r.2.2)) := by
+  induction fuel generalizing m i j k with
+  | zero =>
+    simp only [c_cstl_dlist_reverse_loop1, revLoop]
+    split <;> simp_all
+  | succ f ih =>
+    simp only [c_cstl_dlist_reverse_loop1, revLoop]
+    split
+    · have h := ih (revBodyM m i j) ((revBodyM m i j).nx j) ((revBodyM m i j).pv i) ((revBodyM m i j).pv i)
+      simp only [revBodyM, swapNodes] at h
+      exact h
+    · simp_all
+
+theorem reverse_tie (m : M2) (l : Hd) :
+    c_cstl_dlist_reverse (l.size + 1) m.nx m.pv l = (reverse m l).map (fun m' => (m'.nx, m'.pv, l)) := by
+  have h := revLoop_tie (l.size + 1) m l (m.nx l.h) (m.pv l.h) 0
+  simp only [c_cstl_dlist_reverse, reverse]
+  cases hg : c_cstl_dlist_reverse_loop1 (l.size + 1) m.nx m.pv l (m.nx l.h) (m.pv l.h) 0 with
+  | none =>
+    rw [hg] at h
+    cases hr : revLoop (l.size + 1) m (m.nx l.h) (m.pv l.h) with
+    | none => rfl
+    | some r => rw [hr] at h; simp at h
+  | some g =>
+    rw [hg] at h
+    cases hr : revLoop (l.size + 1) m (m.nx l.h) (m.pv l.h) with
+    | none => rw [hr] at h; simp at h
+    | some r =>
+      rw [hr] at h
+      obtain ⟨gnx, gpv, gl, gi, gj, gk⟩ := g
+      obtain ⟨rm, ri, rj⟩ := r
+      simp only [Option.map_some, Option.some.injEq, Prod.mk.injEq] at h
+      obtain ⟨e1, e2, e3, e4, e5⟩ := h
+      subst e1 e2 e3 e4 e5
+      simp only
+      split <;> rfl
+
+/-- the loop of `cstl_dlist_clear` with a callback that overwrites both links -/
+theorem clearLoop_tie (poison : Nat → Nat) (fuel : Nat) (m : M2) (l : Hd) (acc : List Nat)
+    (r : Mem × Mem × Hd)
+    (hr : c_cstl_dlist_clear_loop1 (fun nx pv c => (upd nx c (poison c), upd pv c (poison c))) fuel m.nx m.pv l = some r) :
+    r.1 = (clearLoop poison fuel m l acc).1.nx ∧ r.2.1 = (clearLoop poison fuel m l acc).1.pv
+    ∧ r.2.2 = (clearLoop poison fuel m l acc).2.1 := by
+  induction fuel generalizing m l acc with
+  | zero =>
+    simp only [c_cstl_dlist_clear_loop1] at hr
+    split at hr
+    · cases hr
+    · cases hr; simp [clearLoop]
+  | succ f ih =>
+    simp only [c_cstl_dlist_clear_loop1] at hr
+    split at hr
+    · rename_i hs
+      have := ih ({ nx := upd (erase m l (m.nx l.h)).1.nx (m.nx l.h) (poison (m.nx l.h)),
+                    pv := upd (erase m l (m.nx l.h)).1.pv (m.nx l.h) (poison (m.nx l.h)) })
+        (erase m l (m.nx l.h)).2 (m.nx l.h :: acc) hr
+      simpa [clearLoop, hs] using this
+    · rename_i hs
+      cases hr; simp [clearLoop, hs]
+
 end Cstl.DList.Tie
